@@ -550,6 +550,13 @@ def containers(kids, wide):
         for a in kids[:6]:
             out.append(['dict', [[key, a]]])
             out.append(['dict', [[['lit', 'x'], a], [key, ['type', 'object']]]])
+    # And: every child sees the ORIGINAL target (a child that adds Optional defaults does not feed the next one)
+    opt = ['dict', [[['opt', 'k', 0], ['type', 'int']], [['type', 'str'], ['type', 'object']]]]
+    for other in (['dict', [[['lit', 'k'], ['type', 'int']], [['type', 'str'], ['type', 'object']]]], ['dict', [[['type', 'str'], ['type', 'object']]]],
+                  ['dict', [[['opt', 'j', 1], ['type', 'int']], [['type', 'str'], ['type', 'object']]]], ['type', 'dict'], ['not', ['dict', [[['lit', 'k'], ['type', 'object']]]]]):
+        out.append(['and', [opt, other]])
+        out.append(['and', [other, opt]])
+        out.append(['or', [['and', [opt, other]], ['type', 'object']]])
     out.append(['set', [['lit', 1], ['lit', 'a']]])
     out.append(['set', [['type', 'int'], ['type', 'str']]])
     out.append(['fset', [['type', 'int'], ['lit', 'a']]])
